@@ -15,7 +15,7 @@ import subprocess
 from ..core import LineProc, hx, unhx, parallel_map, sha
 
 DRIVERS = ["drv_wrap"]
-GENERATED = ["WrapConsts", "WrapMaxLineLength", "Ingest"]
+GENERATED = ["WrapConsts", "WrapMaxLineLength", "Ingest", "SbsRow", "LineNum"]
 
 ZW = "​"
 WIDE = "日本語中文字漢字東京"
@@ -1356,6 +1356,318 @@ def oracle_binary(ctx, rep, seg, case, rc, err, rows):
 
 # ------------------------------------------------------------------ entry points
 
+# ------------------------------------------------------------------ composed side-by-side rows (session 4, T3)
+# Model: DeltaModel/SbsRow.lean + SbsRowRun.lean (driver ops wrap.sbs_hunk / wrap.sbs_panel).
+# Partner: hook ops that exist — `linenum.blocks` (a whole hunk through a real Painter: real alignment, real wrapping,
+# real paint_zero_line / paint_buffered_minus_and_plus_lines) and `style.pad_panel` (get_right_fill_style_for_panel +
+# pad_panel_line_to_width incl. the ANSI fill, which `linenum.blocks` cannot reach: stdout is not a terminal).
+
+SBS_ALPHABET = ["a", "b", "c", "x", "y", " ", "  ", "_", "日", "本", "語", "é", "🙂", "ü", "Z", "0", "(", ")", ";"]
+SBS_FORMATS = [(None, None), ("{nm:>3}┊", "{np:>3}┊"), ("{nm:^5}|", "|{np:<2}|"), ("", ""), ("{nm} {np}:", "{np}"),
+               ("[{nm:>6}]", "[{np:>6}]"), ("#", "{nm:>2}/{np:>2}|")]
+
+
+def sbs_line(rng, target):
+    out = ""
+    while len(out) < target:
+        out += rng.choice(SBS_ALPHABET) if rng.random() < 0.6 else rng.choice("abcdefgh")
+    return out.strip("\n")
+
+
+def sbs_gen_config(rng, T):
+    kind = rng.random()
+    if kind < 0.12:
+        width, fixed, w = "variable", 0, T
+    else:
+        w = rng.choice([rng.randint(8, 24), rng.randint(24, 64), rng.randint(24, 64), rng.randint(64, 130)])
+        width, fixed = str(w), 1
+    optfill = rng.choice([None, "ansi", "spaces"])
+    keep = rng.random() < 0.35
+    fl, fr = rng.choice(SBS_FORMATS)
+    wml = rng.choice(["0", "1", "2", "3", "unlimited"])
+    args = ["--side-by-side", "--width=" + width, "--wrap-max-lines=" + wml]
+    if optfill:
+        args.append("--line-fill-method=" + optfill)
+    if keep:
+        args.append("--keep-plus-minus-markers")
+    if fl is not None:
+        args += ["--line-numbers-left-format=" + fl, "--line-numbers-right-format=" + fr]
+    bg = dict(m=True, p=True, z=False)
+    if rng.random() < 0.3:
+        args.append("--minus-style=normal"); bg["m"] = False
+    if rng.random() < 0.3:
+        args.append("--plus-style=normal"); bg["p"] = False
+    if rng.random() < 0.4:
+        args.append('--zero-style=normal "#222222"'); bg["z"] = True
+    return dict(args=args, fixed=fixed, w=w, optfill=2 if optfill in (None, "ansi") else 1, keep=keep,
+                fl=fl if fl is not None else "│{nm:^4}│", fr=fr if fr is not None else "│{np:^4}│", wml=wml, bg=bg)
+
+
+def sbs_gen_blocks(rng, cfg):
+    half = cfg["w"] // 2
+    blocks = []
+    for _ in range(rng.randint(1, 4)):
+        def ln():
+            return sbs_line(rng, rng.choice([0, 1, 3, max(half - 8, 1), half, half + 5, 2 * half + 3, rng.randint(0, 3 * half + 4)]))
+        if rng.random() < 0.4:
+            blocks.append(("z", ln()))
+        else:
+            m, p = rng.choice([(1, 0), (0, 1), (1, 1), (2, 1), (1, 2), (2, 2), (3, 0), (0, 2)])
+            minus = [ln() for _ in range(m)]
+            plus = [(minus[j] + rng.choice(["", "q", " tail"]) if (j < m and rng.random() < 0.6) else ln()) for j in range(p)]
+            blocks.append(("s", minus, plus))
+    return blocks
+
+
+def sbs_hook_request(pairs, blocks):
+    r = f"linenum.blocks {len(pairs)} " + " ".join(f"{a} {b}" for a, b in pairs) + f" {len(blocks)}"
+    for b in blocks:
+        if b[0] == "z":
+            r += " 0 " + hx(b[1])
+        else:
+            r += f" 1 {len(b[1])} " + " ".join(hx(x) for x in b[1]) + f" {len(b[2])} " + " ".join(hx(x) for x in b[2])
+    return " ".join(r.split())
+
+
+def sbs_parse_blocks(ans, blocks):
+    """-> ([(rows, alignment|None, wl, wr)], left, right, lw, rw, pl, pr)"""
+    f = ans.split()
+    pos, nb, out = 2, int(f[1]), []
+    for _ in range(nb):
+        kind = f[pos]; pos += 1
+        n = int(f[pos]); pos += 1
+        rows = [unhx(x).decode("utf-8", "replace") for x in f[pos:pos + n]]; pos += n
+        if kind == "0":
+            out.append((rows, None, [int(f[pos])], None)); pos += 1
+        else:
+            n = int(f[pos]); pos += 1
+            al = []
+            for k in range(n):
+                a, b = f[pos + 2 * k], f[pos + 2 * k + 1]
+                al.append((None if a == "-" else int(a), None if b == "-" else int(b)))
+            pos += 2 * n
+            n = int(f[pos]); pos += 1
+            wl = [int(x) for x in f[pos:pos + n]]; pos += n
+            n = int(f[pos]); pos += 1
+            wr = [int(x) for x in f[pos:pos + n]]; pos += n
+            out.append((rows, al, wl, wr))
+    left, right, lw, rw, pl, pr = (int(x) for x in f[pos:pos + 6])
+    return out, left, right, lw, rw, pl, pr
+
+
+def sbs_model_request(seg, cfg, pairs, blocks, parsed):
+    def cl(text):
+        return f_clusters(seg.one(text + "\n"))
+    chars = sorted({ch for ch in cfg["fl"] + cfg["fr"] + " -+" if seg.width(ch) != 1})
+    r = [f"wrap.sbs_hunk {cfg['fixed']} {cfg['w']} {cfg['optfill']} 1 {1 if cfg['keep'] else 0} {cfg['fixed']}",
+         hx(cfg["fl"]), hx(cfg["fr"]), str(len(chars))] + [f"{hx(ch)} {seg.width(ch)}" for ch in chars]
+    r.append("1 T " + f_clusters(seg.one("→")))
+    maxl = 0 if wml_rows(cfg["wml"]) is None else wml_rows(cfg["wml"]) + 1
+    r.append(f_cfg(seg, maxl, 370, DEFAULT_SYMS))
+    r.append(f"{len(pairs)} " + " ".join(f"{a} {b}" for a, b in pairs))
+    r.append(str(len(blocks)))
+    bg = cfg["bg"]
+    for b, (rows, al, wl, wr) in zip(blocks, parsed):
+        if b[0] == "z":
+            r.append(f"0 {1 if bg['z'] else 0} " + cl(b[1]))
+        else:
+            r.append(f"1 {1 if bg['m'] else 0} {1 if bg['p'] else 0} {len(b[1])} " + " ".join(cl(x) for x in b[1]) +
+                     f" {len(b[2])} " + " ".join(cl(x) for x in b[2]) +
+                     f" {len(al)} " + " ".join(f"{'-' if a is None else a} {'-' if c is None else c}" for a, c in al))
+    return " ".join(" ".join(r).split())
+
+
+def sbs_boundary(seg, row, col):
+    """Index into the cluster list of `row` at which exactly `col` columns have been used (zero-width clusters that
+    follow belong to the left part), or None when a cluster straddles the column / the row is shorter."""
+    used, cl = 0, seg.one(row)
+    for i, (_, w) in enumerate(cl):
+        if used == col and w > 0:
+            return i
+        used += w
+        if used > col:
+            return None
+    return len(cl) if used == col else None
+
+
+def judge_sbs_hunk(rep, seg, case, ans, m):
+    cfg, blocks = case["cfg"], case["blocks"]
+    key = ("sbs_hunk", " ".join(cfg["args"]), case["req"])
+    replay = dict(op="wrap.sbs_hunk", cfg=cfg, blocks=blocks, pairs=case["pairs"], req=case["req"])
+    if not ans.startswith("ok "):
+        rep.case(key=key, nontrivial=True)
+        rep.count("sbs_hunk:impl-failed")
+        viol(rep, "panic:sbs-hunk:" + ("panic" if ans.startswith("PANIC") else "error"),
+             "painting a hunk side by side failed: " + (unhx(ans.split()[1]).decode("utf-8", "replace")[:160] if ans.startswith("PANIC x") else ans[:160]),
+             dict(case=replay, impl=ans))
+        return None
+    parsed, left, right, lw, rw, pl, pr = sbs_parse_blocks(ans, blocks)
+    allrows = [r for (rows, _, _, _) in parsed for r in rows]
+    seg.many(allrows)
+    wrapped = any(x > 1 for (_, _, wl, wr) in parsed for x in (wl or []) + (wr or []))
+    rep.case(key=key, nontrivial=len(allrows) >= 2, sample=dict(args=cfg["args"], rows=allrows[:6]) if rep.evaluations % 400 == 3 else None)
+    rep.count("sbs_hunk:" + ("wrapped" if wrapped else "unwrapped"))
+    rep.count("sbs_hunk:width-" + ("variable" if not cfg["fixed"] else ("odd" if cfg["w"] % 2 else "even")))
+    rep.count("sbs_hunk:text-width-" + ("none" if min(pl - lw, pr - rw) <= 0 else ("tiny" if min(pl - lw, pr - rw) <= 2 else "normal")))
+    # direct oracle (the property, on the implementation's rows): (i) right panel at the same column, (ii) row <= --width
+    for r in allrows:
+        if seg.width(r) > cfg["w"]:
+            viol(rep, "sbs-hunk:row-wider-than-width", f"row of {seg.width(r)} columns with --width {cfg['w']}: {r!r}", dict(case=replay, row=r))
+            break
+        if sbs_boundary(seg, r, pl) is None:
+            viol(rep, "sbs-hunk:right-panel-column", f"left panel is not exactly {pl} columns wide: {r!r}", dict(case=replay, row=r))
+            break
+    return parsed, left, right, lw, rw, pl, pr
+
+
+def compare_sbs_hunk(rep, seg, case, got, m):
+    parsed, left, right, lw, rw, pl, pr = got
+    replay = dict(op="wrap.sbs_hunk", cfg=case["cfg"], blocks=case["blocks"], pairs=case["pairs"], req=case["req"])
+    if m is None:
+        return
+    if m == "HANG":
+        rep.count("sbs_hunk:model-hang-skipped")
+        return
+    ok = False
+    detail = ""
+    if m.startswith("ok "):
+        f = m.split()
+        mp = [int(x) for x in f[1:5]]
+        pos, nb, mrows = 6, int(f[5]), []
+        for _ in range(nb):
+            n = int(f[pos]); pos += 1
+            mrows.append([(unhx(f[pos + 2 * k]).decode("utf-8", "replace"), unhx(f[pos + 2 * k + 1]).decode("utf-8", "replace")) for k in range(n)])
+            pos += 2 * n
+        mc = [int(f[pos]), int(f[pos + 1])]
+        irows = [rows for (rows, _, _, _) in parsed]
+        ok = mp == [pl, pr, lw, rw] and mc == [left, right] and [[a + b for a, b in blk] for blk in mrows] == irows
+        if ok:
+            # the model's split point is the panel boundary of the real row
+            for blk in mrows:
+                for a, _ in blk:
+                    if seg.width(a) != pl:
+                        ok, detail = False, f"model left panel {a!r} is not {pl} columns"
+        else:
+            detail = f"panels/gutters impl {[pl, pr, lw, rw]} model {mp}; counters impl {[left, right]} model {mc}"
+    rep.corr_case("wrap.sbs_hunk", ok, dict(case=replay, detail=detail, impl=[rows for (rows, _, _, _) in parsed], model=m[:2000]))
+
+
+def part_sbs_rows(ctx, rep, hook, mdl, seg, only=None):
+    rng = ctx.rng
+    T = term_width(hook) or 80
+    cases = []
+    if only is not None:
+        cases = [only]
+    else:
+        for _ in range(ctx.n(36, 1200)):
+            cfg = sbs_gen_config(rng, T)
+            for _ in range(ctx.n(4, 6)):
+                a, c = rng.choice([1, 7, 95, 998, 99997]), rng.choice([1, 8, 99, 1000, 123456])
+                blocks = sbs_gen_blocks(rng, cfg)
+                nm = sum(len(b[1]) if b[0] == "s" else 1 for b in blocks)
+                np_ = sum(len(b[2]) if b[0] == "s" else 1 for b in blocks)
+                pairs = [(a, nm), (c, np_)]
+                cases.append(dict(cfg=cfg, blocks=blocks, pairs=pairs, req=sbs_hook_request(pairs, blocks)))
+    reqs, sticky, idx, cur = [], [], [], None
+    for k, case in enumerate(cases):
+        if case["cfg"]["args"] != cur:
+            cur = case["cfg"]["args"]
+            sticky.append(len(reqs)); reqs.append("cfg " + " ".join(hx(x) for x in cur)); idx.append(None)
+        reqs.append(case["req"]); idx.append(k)
+    impl = hook.ask(reqs, timeout=ctx.n(120, 900), sticky=sticky)
+    texts = set()
+    for case in cases:
+        for b in case["blocks"]:
+            for t in ([b[1]] if b[0] == "z" else b[1] + b[2]):
+                texts.add(t + "\n")
+        texts.update(case["cfg"]["fl"] + case["cfg"]["fr"])
+    seg.many(sorted(texts))
+    mreqs, back, gots = [], [], {}
+    for k, ans in zip(idx, impl):
+        if k is None:
+            continue
+        got = judge_sbs_hunk(rep, seg, cases[k], ans, None)
+        if got is None:
+            continue
+        gots[k] = got
+        mreqs.append(sbs_model_request(seg, cases[k]["cfg"], cases[k]["pairs"], cases[k]["blocks"], got[0])); back.append(k)
+    model = mdl.ask(mreqs, timeout=ctx.n(120, 900)) if (mdl and mreqs) else [None] * len(mreqs)
+    for k, m in zip(back, model):
+        compare_sbs_hunk(rep, seg, cases[k], gots[k], m)
+
+
+STATE_CODE = dict(m=0, z=2, p=4)
+
+
+def part_sbs_panel(ctx, rep, hook, mdl, seg, only=None):
+    """One panel: fill decision + empty-line marker + truncation + padding, all three should-fill values (incl. the
+    ANSI fill) x both sides x is_empty x has_index x state x fill style with / without background x fixed / variable."""
+    rng = ctx.rng
+    tl = "\x1b[7m→\x1b[0m"
+    tail_items = items_of(hook, [tl])[0]
+    cases = []
+    if only is not None:
+        cases = [only]
+    else:
+        for _ in range(ctx.n(14, 200)):
+            w = rng.choice([rng.randint(6, 40), rng.randint(6, 40), "variable"])
+            bg = dict(m=rng.random() < 0.6, p=rng.random() < 0.6, z=rng.random() < 0.5)
+            args = ["--side-by-side", f"--width={w}", "--line-fill-method=" + rng.choice(["ansi", "spaces"]),
+                    "--minus-style=" + ('normal "#3f0001"' if bg["m"] else "normal"), "--plus-style=" + ('normal "#002800"' if bg["p"] else "normal"),
+                    "--zero-style=" + ('normal "#222222"' if bg["z"] else "normal")]
+            for _ in range(ctx.n(12, 24)):
+                text = sbs_line(rng, rng.choice([0, 1, 2, 5, 9, 14, 21, 30, 45]))
+                line = text if rng.random() < 0.5 else "\x1b[31m" + text + "\x1b[0m"
+                cases.append(dict(args=args, bg=bg, variable=(w == "variable"), line=line, empty=int(rng.random() < 0.25),
+                                  index=int(rng.random() < 0.7), state=rng.choice("mpz"), side=rng.choice("lr"),
+                                  fill=rng.choice(["ansi", "spaces", "no"])))
+    reqs, sticky, idx, cur = [], [], [], None
+    for k, c in enumerate(cases):
+        if c["args"] != cur:
+            cur = c["args"]
+            sticky.append(len(reqs)); reqs.append("cfg " + " ".join(hx(x) for x in cur)); idx.append(None)
+        reqs.append(f"style.pad_panel {hx(c['line'])} {c['empty']} {c['index']} {c['state']} {c['side']} {c['fill']}"); idx.append(k)
+    impl = hook.ask(reqs, timeout=ctx.n(120, 600), sticky=sticky)
+    line_items = dict(zip([c["line"] for c in cases], items_of(hook, [c["line"] for c in cases])))
+    mreqs, back, outs = [], [], {}
+    for k, ans in zip(idx, impl):
+        if k is None:
+            continue
+        c = cases[k]
+        replay = dict(op="wrap.sbs_panel", **c)
+        key = ("sbs_panel", " ".join(c["args"]), c["line"], c["empty"], c["index"], c["state"], c["side"], c["fill"])
+        if ans.startswith("PANIC") and c["empty"] and c["index"] and False:
+            continue
+        if not ans.startswith("ok "):
+            rep.case(key=key, nontrivial=True)
+            viol(rep, "panic:sbs-panel", "pad_panel_line_to_width failed: " + ans[:160], dict(case=replay, impl=ans))
+            continue
+        f = ans.split()
+        out, mode, pw = ANSI_RE.sub("", unhx(f[1]).decode("utf-8", "replace")), f[2], int(f[-1])
+        rep.case(key=key, nontrivial=seg.width(ANSI_RE.sub("", c["line"])) > pw or mode != "none")
+        rep.count(f"sbs_panel:side-{c['side']}:mode-{mode}")
+        # direct oracle: left panel exactly the panel width, any panel at most
+        ow = seg.width(out)
+        if ow > pw or (c["side"] == "l" and ow != pw):
+            viol(rep, "sbs-panel:" + ("left-panel-not-exact" if c["side"] == "l" else "panel-too-wide"),
+                 f"panel of {ow} columns, panel width {pw}", dict(case=replay, impl=ans))
+        outs[k] = (out, mode)
+        mreqs.append(f"wrap.sbs_panel {1 if c['side'] == 'l' else 2} {pw} {c['empty']} {c['index']} {STATE_CODE[c['state']]} "
+                     f"{1 if c['bg'][c['state']] else 0} {0 if c['variable'] else 1} {dict(no=0, spaces=1, ansi=2)[c['fill']]} "
+                     f"{f_items(line_items[c['line']])} {f_items(tail_items)}")
+        back.append(k)
+    model = mdl.ask(mreqs, timeout=300) if (mdl and mreqs) else [None] * len(mreqs)
+    for k, m in zip(back, model):
+        if m is None:
+            continue
+        out, mode = outs[k]
+        ok = False
+        if m.startswith("ok "):
+            f = m.split()
+            ok = unhx(f[1]).decode("utf-8", "replace") == out and ["none", "spaces", "ansi"][int(f[2])] == mode
+        rep.corr_case("wrap.sbs_panel", ok, dict(case=dict(op="wrap.sbs_panel", **cases[k]), impl=[out, mode], model=m[:600]))
+
+
 def run(ctx, rep):
     rep.rule = ("wrap.line: every line of <=N clusters over widths {0,1,2} x every section split x newline "
                 "placement, line widths 0..8, limits {unlimited,0,1,2,5}; random lines up to 90 clusters with "
@@ -1378,6 +1690,8 @@ def run(ctx, rep):
     part_truncate(ctx, rep, hook, mdl, seg)
     part_panels(ctx, rep, hook, mdl)
     part_maxlen(ctx, rep, hook, mdl)
+    part_sbs_rows(ctx, rep, hook, mdl, seg)
+    part_sbs_panel(ctx, rep, hook, mdl, seg)
     part_binary(ctx, rep, seg)
     rep.extra_trusted += ["unicode-segmentation / unicode-width (clusters and widths are taken from the implementation: text.graphemes)",
                           "ANSI element iterator (items of a painted line are taken from the implementation: wrap.ansi_items)",
@@ -1395,7 +1709,13 @@ def replay(ctx, rep, obj):
     seg = Seg(hook)
     op = case.get("op")
     rep.rule = "replay of one recorded case"
-    if op == "maxlen":
+    if op == "wrap.sbs_hunk":
+        case["pairs"] = [tuple(x) for x in case["pairs"]]
+        case["blocks"] = [tuple(b) for b in case["blocks"]]
+        part_sbs_rows(ctx, rep, hook, mdl, seg, only=case)
+    elif op == "wrap.sbs_panel":
+        part_sbs_panel(ctx, rep, hook, mdl, seg, only=case)
+    elif op == "maxlen":
         case = dict(case, term_width=term_width(hook) or case.get("term_width") or 80,
                     probes=[tuple(x) for x in case["probes"]])
         ans = hook.ask(maxlen_requests(case), timeout=60, sticky=[0])
